@@ -323,7 +323,7 @@ def run_shard(tier, seed, shard, nshards, res):
             cfg = {'eviction_policy': pol, 'cull_limit': cl, 'size_limit': limit, 'disk_min_file_size': T,
                    'statistics': rng.random() < 0.2}
             history(dc, sc, res, rng, kind, cfg, 'c09 seed=%d shard=%d i=%d' % (seed, shard, i))
-            if res.counters.get('violations_raw', 0) > 8:
+            if res.new_violations() > 8:
                 return
         probe.set_clock(None)
         for i in range(1 if tier == 'quick' else 6):
